@@ -72,6 +72,7 @@ type opGuard struct {
 	prefix       bool // occurs before the function's first operand parse
 	ctors        []string
 	noCallBranch token.Pos // a branch assigning the right operand without a parse call
+	fold         string    // explicit-stack form: how the pending operands are folded ("right" | "left")
 }
 
 type c04Level struct {
@@ -872,7 +873,7 @@ func c04Run(r *Run) {
 			if bind != nil {
 				list, _ = effective(list)
 			}
-			for _, s := range list {
+			for si, s := range list {
 				switch x := s.(type) {
 				case *ast.ForStmt:
 					if x.Cond != nil {
@@ -880,6 +881,20 @@ func c04Run(r *Run) {
 					}
 					visit(x.Body.List)
 				case *ast.IfStmt:
+					// the explicit-stack form of a level: inside `for { operand := parse(); if cur != OP { fold the
+					// pending operands; return }; push(operand, operator); next() }` the statements after the if
+					// are the operator's arm, and the fold in the if says how the chain groups
+					if be, ok := ast.Unparen(x.Cond).(*ast.BinaryExpr); ok && be.Op == token.NEQ && isCurrentType(be.X) && x.Else == nil && len(x.Body.List) > 0 {
+						if _, leaves := x.Body.List[len(x.Body.List)-1].(*ast.ReturnStmt); leaves {
+							if ts, ok := tokensOf(be.Y, curFd, 0); ok && len(ts) > 0 {
+								if fold := c04FoldDirection(info, x.Body); fold != "" {
+									g := &opGuard{fn: fd, src: fd, toks: ts, kind: "for", pos: x.Pos(), fold: fold}
+									bodyInfo(g, list[si+1:])
+									lv.guards = append(lv.guards, g)
+								}
+							}
+						}
+					}
 					addGuard("if", x.Cond, nil, x.Body.List, x.Pos())
 					visit(x.Body.List)
 					if x.Else != nil {
@@ -1346,6 +1361,19 @@ func c04Run(r *Run) {
 				continue
 			}
 			key := fmt.Sprintf("assoc:%s", ref.name)
+			if g.fold != "" {
+				// explicit operand stack: the fold direction is the associativity
+				want := "left"
+				if ref.assoc == "right" {
+					want = "right"
+				}
+				if g.fold == want {
+					r.ok(key, g.pos, fmt.Sprintf("%s: operands collected on a stack and folded from the %s (%s-associative)", ref.name, map[string]string{"right": "right", "left": "left"}[g.fold], g.fold))
+				} else {
+					r.bad(key, g.pos, fmt.Sprintf("level %s folds its pending operands from the %s: the chain groups %s-associatively, the table says %s", ref.name, g.fold, g.fold, ref.assoc))
+				}
+				continue
+			}
 			switch ref.assoc {
 			case "left", "either":
 				okr := len(g.rights) > 0
@@ -2072,4 +2100,63 @@ func c04SignedCond(p *packages.Package, ifs *ast.IfStmt) bool {
 		}
 	}
 	return false
+}
+
+// c04FoldDirection: the body folds a stack of pending (left, operator) pairs into one tree. "right": a
+// loop running from the last pending entry to the first builds New(…, entry.left, entry.op, acc) with the
+// accumulated tree as the right operand; "left": a forward loop builds New(…, acc, entry.op, entry.right)
+// with it as the left operand. "" when neither shape is present.
+func c04FoldDirection(info *types.Info, body *ast.BlockStmt) string {
+	out := ""
+	ast.Inspect(body, func(n ast.Node) bool {
+		var loopBody *ast.BlockStmt
+		backward := false
+		switch x := n.(type) {
+		case *ast.ForStmt:
+			loopBody = x.Body
+			if inc, ok := x.Post.(*ast.IncDecStmt); ok && inc.Tok == token.DEC {
+				backward = true
+			}
+		case *ast.RangeStmt:
+			loopBody = x.Body
+			if c, ok := ast.Unparen(x.X).(*ast.CallExpr); ok {
+				if cal := calleeFunc(info, c); cal != nil && cal.Pkg() != nil && cal.Pkg().Path() == "slices" && cal.Name() == "Backward" {
+					backward = true
+				}
+			}
+		}
+		if loopBody == nil {
+			return true
+		}
+		ast.Inspect(loopBody, func(m ast.Node) bool {
+			as, ok := m.(*ast.AssignStmt)
+			if !ok || len(as.Lhs) != 1 || len(as.Rhs) != 1 {
+				return true
+			}
+			acc, ok := as.Lhs[0].(*ast.Ident)
+			if !ok {
+				return true
+			}
+			c, ok := ast.Unparen(as.Rhs[0]).(*ast.CallExpr)
+			if !ok || len(c.Args) != 4 {
+				return true
+			}
+			if cal := calleeFunc(info, c); cal == nil || cal.Name() != "NewBinaryExpression" {
+				return true
+			}
+			isAcc := func(e ast.Expr) bool {
+				id, ok := ast.Unparen(e).(*ast.Ident)
+				return ok && info.Uses[id] != nil && info.Uses[id] == info.Uses[acc]
+			}
+			switch {
+			case isAcc(c.Args[3]) && !isAcc(c.Args[1]) && backward:
+				out = "right"
+			case isAcc(c.Args[1]) && !isAcc(c.Args[3]) && !backward:
+				out = "left"
+			}
+			return true
+		})
+		return true
+	})
+	return out
 }
